@@ -518,7 +518,11 @@ class Builtins:
             raise OutOfSubset('filter over static sequence', node)
 
         def keep(i, s):
-            r = self.call_sv(fn, [it.at(i, s)], {}, s, node)
+            self.bool_ctx += 1
+            try:
+                r = self.call_sv(fn, [it.at(i, s)], {}, s, node)
+            finally:
+                self.bool_ctx -= 1
             oks = [(x, y) for x, y in r if not isinstance(x, Raised)]
             if len(r) != 1 or len(oks) != 1:
                 raise OutOfSubset('filter predicate forks or raises', node)
@@ -773,8 +777,13 @@ class Builtins:
             if meth in ('pop', 'update', 'setdefault'):
                 if not recv.fresh:
                     self.frame_violation(st, f'{self.src(node)}', node)
-                # semantics as for a builder copy
-                return self.call_builder(meth, VMapB(th.m_hasA(t), th.m_getA(t)), args, kwargs, st, node, rebind=None)
+                # semantics as for a builder copy; a function-local mapping (e.g. **kwargs) is updated in place
+                return self.call_builder(meth, VMapB(th.m_hasA(t), th.m_getA(t)), args, kwargs, st, node,
+                                         rebind=('auto' if recv.fresh else None))
+        if kind == 'set' and meth == 'copy':
+            return [(VSetB(th.s_hasA(t)), st)]
+        if kind == 'seq' and meth == 'copy':
+            return self.container_ctor('list', [recv], st, node)
         if meth in ('append', 'add', 'extend', 'update', 'pop', 'remove', 'discard', 'setdefault') and not recv.fresh:
             self.frame_violation(st, f'{self.src(node)}', node)
         if meth == 'keys' and kind is None:
@@ -987,6 +996,22 @@ class Builtins:
             return [(VBool(th.fn('val_lt', th.Val, th.Val, th.B)(V(0), V(1))), st)]
         if name == 'card':
             return self.bi_len(args, kwargs, st, node)
+        if name == 'hash_of':
+            return [(VVal(th.fn('hash_of', th.Val, th.Val)(V(0)), kind='int'), st)]
+        if name == 'fnref':
+            fi = self.idx.funcs.get(args[0].py[1])
+            if fi is None:
+                raise OutOfSubset('fnref: unknown function ' + str(args[0].py[1]))
+            return [(VVal(self.toVal(VFunc(fi.node, {}, fi.module, fi.qualname), st)), st)]
+        if name == 'called':
+            # called(fn): how many times the user callable fn was invoked on this path (ghost call log)
+            log = st.env.get('$calls')
+            items = log.items if isinstance(log, VTuple) else ()
+            fv = V(0)
+            tot = z3.IntVal(0)
+            for it_ in items:
+                tot = tot + z3.If(it_.term == fv, 1, 0)
+            return [(VInt(tot), st)]
         if name == 'id_of':
             return [(VVal(th.fn('id_of', th.Val, th.Val)(V(0)), kind='int'), st)]
         if name == 'clsref':
